@@ -29,6 +29,7 @@
 """Handling for action context."""
 
 import abc
+import threading
 from typing import Tuple, TYPE_CHECKING, Dict
 
 import deep.logging
@@ -41,6 +42,9 @@ from deep.utils import str2bool
 if TYPE_CHECKING:
     from deep.processor.context.trigger_context import TriggerContext
     from deep.api.tracepoint.trigger import LocationAction
+
+
+_TRIGGER_LOCK = threading.Lock()
 
 
 class ActionContext(abc.ABC):
@@ -56,6 +60,7 @@ class ActionContext(abc.ABC):
         self.trigger_context: 'TriggerContext' = parent
         self.location_action: 'LocationAction' = action
         self._triggered = False
+        self._recorded = False
 
     def __enter__(self):
         """Enter and open the context."""
@@ -63,7 +68,7 @@ class ActionContext(abc.ABC):
 
     def __exit__(self, exception_type, exception_value, exception_traceback):
         """Exit and close the context."""
-        if self.has_triggered():
+        if self.has_triggered() and not self._recorded:
             self.location_action.record_triggered(self.trigger_context.ts)
 
     def eval_watch(self, watch: str, source: str) -> Tuple[WatchResult, Dict[str, Variable], str]:
@@ -100,10 +105,27 @@ class ActionContext(abc.ABC):
 
     def process(self):
         """Process the action."""
+        if not self.__reserve_trigger():
+            return None
         try:
             return self._process_action()
         finally:
             self._triggered = True
+
+    def __reserve_trigger(self) -> bool:
+        """
+        Check the rate limits again and record the trigger as one atomic step.
+
+        Threads that reach the location at the same time would otherwise all pass the check before
+        any of them has recorded its trigger, and exceed the fire count or fire period.
+        :return: True, if the trigger was recorded and the action should be processed.
+        """
+        with _TRIGGER_LOCK:
+            if not self.location_action.can_trigger(self.trigger_context.ts):
+                return False
+            self.location_action.record_triggered(self.trigger_context.ts)
+            self._recorded = True
+            return True
 
     @abc.abstractmethod
     def _process_action(self):
